@@ -288,8 +288,18 @@ def run(ctx, chk):
     dfile = 'src/debug/disassembly/mod.rs'
     fn = prog.fns[DIS]
     loops = ipd.loops_of(DIS)
+    # decode may be called from a private helper the loop body is split into
+    fam_ = private_family(prog, DIS)
+    via = {'decoder::decode'}
+    grew = True
+    while grew:
+        grew = False
+        for f_ in sorted(fam_ - via - {DIS}):
+            if any(n_ in via for _, _, names_ in prog.call_sites(f_) for n_ in names_):
+                via.add(f_)
+                grew = True
     dec_blocks = [i for i, b_ in enumerate(fn['blocks']) if b_['term']['k'] == 'call' and
-                  (b_['term']['resolved'] or b_['term']['callee']) == 'decoder::decode']
+                  (b_['term']['resolved'] or b_['term']['callee']) in via]
     outer = [h for h, body_ in loops.items() if any(d in body_ for d in dec_blocks)]
     outer = max(outer, key=lambda h: len(loops[h])) if outer else None
     tile_ok = outer is not None
@@ -297,7 +307,7 @@ def run(ctx, chk):
     buf_ok = True
     pairs = 0
     singles = 0
-    htag = ':bb%d)' % outer if outer is not None else None
+    htag = ':bb%d)' % outer if outer is not None else '\0'
 
     def proved(cond, env):
         return env.const_of(cond) == 1 or bvproof.equal_under(cond, C(1, 1), env, 1) is True
@@ -406,7 +416,7 @@ def run(ctx, chk):
     else:
         chk.fail('C20.4', 'exit', 'disassemble can return before the cursor reaches the end of the input', dfile, None)
     callers = sorted(set(c[0] for c in prog.callers('decoder::decode')))
-    if DIS in callers:
+    if set(callers) & fam_:
         chk.ok('C20.4', 'same-decoder', sample={'decoder::decode callers': callers})
     else:
         chk.fail('C20.4', 'same-decoder', 'disassemble does not use decoder::decode', dfile, None)
